@@ -2,6 +2,7 @@ open Model
 open Fpmodel
 (* C13: search loops and the solved-flag machine (Search.v).
    status tokens: 0 Optimal 1 Infeasible 2 TimeLimit 3 Other; a solver outcome = <native> <custom_timeout 0|1>
+   mfd/mfdc/mpc/mpcc take the switch <upper_excl> (range(lb,|E|) vs range(lb,|E|+1)) before the bounds
    responses of the loops:  RES <S k | N | X | C | V> <used> <aux> <lbk>   (Solved/NotSolved/Exited/Crashed/Starved) *)
 let status_of_int = function 0 -> Optimal | 1 -> Infeasible | 2 -> TimeLimit | _ -> Other
 let next_raw () = let s = next () in let c = next_bool () in { native = status_of_int s; custom_timeout = c }
@@ -26,21 +27,21 @@ let () = register "mgs" (fun () ->
   let sts = next_list next_raw in print_outcome (run_mgs sk lb n sts))
 
 let () = register "mfd" (fun () ->
-  let sk = next_bool () in let ex = next_bool () in let lb0 = next_nat () in let ne = next_nat () in
+  let sk = next_bool () in let ex = next_bool () in let xc = next_bool () in let lb0 = next_nat () in let ne = next_nat () in
   let um = next_bool () in let nw = next_nat () in let gu = next_bool () in let gw = next_nat () in
   let gr = next_list next_bool in let sts = next_list next_raw in
-  print_outcome (run_mfd sk ex lb0 ne um nw gu gw gr sts))
+  print_outcome (run_mfd sk ex xc lb0 ne um nw gu gw gr sts))
 
 let () = register "mfdc" (fun () ->
-  let sk = next_bool () in let lb0 = next_nat () in let ne = next_nat () in
+  let sk = next_bool () in let xc = next_bool () in let lb0 = next_nat () in let ne = next_nat () in
   let um = next_bool () in let nw = next_nat () in let gu = next_bool () in let gw = next_nat () in
   let ov = next_list next_bool in let sts = next_list next_raw in
-  print_outcome (run_mfdc sk lb0 ne um nw gu gw ov sts))
+  print_outcome (run_mfdc sk xc lb0 ne um nw gu gw ov sts))
 
 let () = register "mpc" (fun () ->
-  let lb = next_nat () in let ne = next_nat () in let sts = next_list next_raw in print_outcome (run_mpc lb ne sts))
+  let xc = next_bool () in let lb = next_nat () in let ne = next_nat () in let sts = next_list next_raw in print_outcome (run_mpc xc lb ne sts))
 let () = register "mpcc" (fun () ->
-  let lb = next_nat () in let ne = next_nat () in let sts = next_list next_raw in print_outcome (run_mpcc lb ne sts))
+  let xc = next_bool () in let lb = next_nat () in let ne = next_nat () in let sts = next_list next_raw in print_outcome (run_mpcc xc lb ne sts))
 
 (* npo <kstart> <kmax> <first_feasible> <abs? num den> <rel? num den> <n> ext* <n> (num den)* <n> over* <n> sts* *)
 let () = register "npo" (fun () ->
